@@ -4,5 +4,6 @@ CONSTANTS
   Answers = {"ok", "too_large", "bad_request", "unavailable", "transport"}
   SplitModes = {TRUE, FALSE}
   M_StatusOfFailingRequest = TRUE
-INVARIANTS TypeOK NilOnlyIfAcceptedOrRefused RetryableIsReported RangesInOrder FailureEndsAttempt
+  M_DeadQueueOnlyOnGiveUp = TRUE
+INVARIANTS TypeOK NilOnlyIfAcceptedOrRefused RetryableIsReported RangesInOrder FailureEndsAttempt DeadQueueOnlyOnGiveUp
 CHECK_DEADLOCK FALSE
